@@ -37,3 +37,18 @@ Example C17_example :
   split_collides ["a"; "b"] (fun i => [("n", "p")]) = true.
 Proof. vm_compute. auto. Qed.
 Print Assumptions C17_example.
+
+(* BEGIN PINNED FINGERPRINTS (tools/pin_shapes.py) *)
+(* The functions and classes of /repo that hand-written parts of the model mirror (Model/VM.v, NameLevel.v, Loopback.v) and the glue around the modelled core
+   this property is anchored in: the fingerprints (sha256 of the normalised source, comments and docstrings dropped) are regenerated on every run; an edit of one
+   of them re-opens this property even if no sampled case shows a difference.  Rewritten by tools/pin_shapes.py on a tree on which every check passes. *)
+From Connectome Require GlueGroupGen GlueSplitGen.
+Theorem C17_mirrored_functions_are_the_pinned_ones :
+  GlueGroupGen.shape_class_GroupBy = "18ea6a3578454a07" /\
+  GlueGroupGen.shape_to_key = "25665e00459eba8d" /\
+  GlueSplitGen.shape_class_SplitBase = "fa17dad5b6a42226" /\
+  GlueSplitGen.shape_chain_edges = "f009adada3e3a857" /\
+  GlueSplitGen.shape_class_SplitFactory = "39f156adf6b10ab1".
+Proof. repeat split; reflexivity. Qed.
+Print Assumptions C17_mirrored_functions_are_the_pinned_ones.
+(* END PINNED FINGERPRINTS *)
